@@ -93,8 +93,12 @@ def quietAfter (h : List E) : List String :=
     if b > e then
       some (if lateInstance h { who := w, kind := "", g := 0, inst := i } then s!"leak:{w}" else s!"in:{w}")
     else none
-  let started := (post.filter fun e => e.kind == "recvB" || e.kind == "rcvB").map fun e =>
-    if lateInstance h e then s!"leak:{e.who}" else s!"new:{e.who}"
+  -- handlers that START after Stop returned, with their number per actor / grain: one per actor can
+  -- come from a worker that had picked the behaviour before reset() cleared it; more cannot
+  let startedEv := post.filter fun e => e.kind == "recvB" || e.kind == "rcvB"
+  let started := (startedEv.map fun e =>
+    if lateInstance h e then s!"leak:{e.who}"
+    else s!"new:{e.who}x{(startedEv.filter fun x => x.who == e.who && !lateInstance h x).length}")
   let hooks := (post.filter fun e => e.kind == "postB" || e.kind == "deaB").map fun e =>
     if lateInstance h e then s!"leak:{e.who}" else s!"late:{e.who}"
   if h.any isStopE then (inside ++ started ++ hooks).eraseDups else []
